@@ -1516,6 +1516,9 @@ std::string Generator::GeneratorImpl::generateCode(const AnalyserEquationAstPtr 
                 if ((astParent != nullptr)
                     && ((astParent->type() == AnalyserEquationAst::Type::DIVIDE)
                         || (astParent->type() == AnalyserEquationAst::Type::DEGREE)
+                        || (((astParent->type() == AnalyserEquationAst::Type::MINUS)
+                             || (astParent->type() == AnalyserEquationAst::Type::PLUS))
+                            && (astParent->rightChild() == nullptr))
                         || (mProfile->hasPowerOperator()
                             && ((astParent->type() == AnalyserEquationAst::Type::POWER)
                                 || (astParent->type() == AnalyserEquationAst::Type::ROOT))))) {
